@@ -235,6 +235,12 @@ def workfile(name):
 
 
 # ---------------------------------------------------------------- known findings
+def norm_key(key):
+    """Keys identify the failing input / call site; they are written without blanks so that they fit the one-line
+    format of known_findings.txt."""
+    return re.sub(r'[\s"]+', '_', str(key)).strip('_')[:240]
+
+
 def load_findings():
     """known_findings.txt:  'finding: property=<id> key=<key> <text>'  suppresses exactly that key;
     'fixed: property=<id> <commit> <text>' is a record only and suppresses nothing."""
@@ -245,7 +251,7 @@ def load_findings():
             line = line.strip()
             m = re.match(r'finding:\s+property=(\S+)\s+key=(\S+)\s+(.*)', line)
             if m:
-                out.append({'property': m.group(1), 'key': m.group(2), 'text': m.group(3)})
+                out.append({'property': m.group(1), 'key': norm_key(m.group(2)), 'text': m.group(3)})
     return out
 
 
@@ -286,6 +292,7 @@ class Check:
 
     def violation(self, key, what, replay_obj):
         """Record a violation; a listed known finding with the same key is reported as such instead."""
+        key = norm_key(key)
         for f in self.findings:
             if f['key'] == key:
                 log('KNOWN-FINDING: property=%s %s [%s]' % (self.prop, f['text'], key))
@@ -301,6 +308,7 @@ class Check:
             json.dump(replay_obj, f, indent=1)
         log('VIOLATION property=%s replay=%s' % (self.prop, path))
         log('  ' + what)
+        log('  key=' + key)
         self.violations.append({'key': key, 'what': what, 'replay': path})
         return True
 
@@ -436,7 +444,7 @@ def generic_replay(chk, path):
     chk.cov['rule'] = 'replay of ' + path
 
 
-def judge_trace(chk, res, module, trace_path, name, nruns=1, key_of=None, offset=0):
+def judge_trace(chk, res, module, trace_path, name, nruns=1, key_of=None, offset=0, depth=0):
     chk.add_tlc(res, name, trace=True)
     if res.ok:
         chk.cov['traces_validated_against_impl'] += nruns
@@ -471,8 +479,27 @@ def judge_trace(chk, res, module, trace_path, name, nruns=1, key_of=None, offset
         if mism:
             what += ' ' + ' | '.join(mism[:3])
         kept = keep_trace(chk.prop, trace_path)
-        chk.violation(key, what, {'module': module, 'trace': kept or trace_path, 'event_index': idx, 'event': ev, 'tlc_env': getattr(res, 'env', {}),
-                                  'mismatch': mism[:10], 'invariant': res.invariant,
-                                  'tlc_tail': res.out.splitlines()[-30:]})
+        reported = chk.violation(key, what, {'module': module, 'trace': kept or trace_path, 'event_index': idx, 'event': ev, 'tlc_env': getattr(res, 'env', {}),
+                                             'mismatch': mism[:10], 'invariant': res.invariant,
+                                             'tlc_tail': res.out.splitlines()[-30:]})
+        if not reported and idx is not None and depth < 8:
+            # a listed known finding: it must not hide a different violation later in the same trace - cut the event
+            # (for multi-step histories everything up to the next configuration) and validate the rest
+            with open(trace_path) as f:
+                lines = f.readlines()
+            cut = idx
+            while cut < len(lines) and json.loads(lines[cut]).get('ev') not in ('cfg', 'end', 'plan', 'solve', 'stat', 'block', 'row', 'lin', 'scn') \
+                    and module in ('Trace_Codec', 'Trace_Kernels', 'Trace_PlanCache', 'Trace_Stream'):
+                cut += 1
+            rest = [l for l in lines[cut:]]
+            if [l for l in rest if json.loads(l).get('ev') not in ('end', 'meta')]:
+                nxt = trace_path + '.after_known%d' % (depth + 1)
+                with open(nxt, 'w') as f:
+                    f.write(lines[0] if json.loads(lines[0]).get('ev') == 'meta' else '{"ev":"meta"}\n')
+                    f.writelines(rest)
+                env = dict(getattr(res, 'env', {}))
+                env['TRACE'] = nxt
+                res2 = tlc(module, workers=1, timeout=3600, env=env, deque=True, tag=name + ' (after known finding)')
+                return judge_trace(chk, res2, module, nxt, name, 0, key_of, offset=offset + cut - 1, depth=depth + 1) and False
         return False
     tlc_tool_failure(res, name)
